@@ -282,3 +282,33 @@ VH_ENTRY vh_assoc_op() {
   free(params);
   VH_END();
 }
+
+// =================================================================================== C02: growth cap and map exhaustion
+// ---- Segment::newSlot refuses to grow a segment beyond 64 slots per input character (MAX_SEG_GROWTH_FACTOR)
+VH_ENTRY vh_newslot_cap() {
+  World w; vh_make_face(w); vh_make_segment(w);
+  w.seg->m_freeSlots = 0;                               // free list empty: the next slot needs a new buffer
+  w.seg->m_numCharinfo = nondet_u8() & 3; w.seg->m_numGlyphs = nondet_u16();
+  w.seg->m_bufSize = 1;
+  size_t ng = w.seg->m_numGlyphs, nc = w.seg->m_numCharinfo;
+  Slot *s = w.seg->newSlot();
+  if (ng > nc * 64) ASSERT(s == 0, "no new slot once the segment holds more than 64 slots per character");
+  else ASSERT(s != 0 && s->m_next == 0 && s->m_prev == 0 && !s->isDeleted() && !s->isCopied(), "otherwise a fresh, unlinked slot");
+  VH_END();
+}
+
+// ---- NEXT at the end of the slot map stops the machine (DIE) instead of walking off the map
+VH_ENTRY vh_next_end() {
+  World w; vh_make_face(w); vh_make_segment(w);
+  ASSUME(inv_stream(w));
+  unsigned start, len, ctx; window(start, len, ctx);
+  VM_SETUP(w, start, len, ctx, 8);
+  const byte *dp = 0;
+  // move the cursor to an arbitrary later map position first (as preceding NEXTs would)
+  uint8_t adv = nondet_u8(); ASSUME(adv <= len + 1 - ctx);
+  reg.map = map + adv; reg.is = *reg.map;
+  bool cont = op_body(NEXT)(dp, sp, sb, reg);
+  if ((int)(ctx + adv) >= (int)smap.size()) ASSERT(!cont && status == Machine::died_early, "NEXT past the last map entry dies");
+  else ASSERT(cont && reg.map == map + adv + 1, "NEXT inside the map advances");
+  VH_END();
+}
